@@ -188,7 +188,7 @@ func (c *Check) baseWiring() {
 		nm := norm[0]
 		guarded := false
 		for d, child := nm.Block().Idom(), nm.Block(); d != nil; child, d = d, d.Idom() {
-			if iff, ok := d.Instrs[len(d.Instrs)-1].(*ssa.If); ok && d.Succs[0] == child && len(child.Preds) == 1 && isFieldLoad(iff.Cond, "driver.source", "Normalize") {
+			if iff, ok := d.Instrs[len(d.Instrs)-1].(*ssa.If); ok && d.Succs[0] == child && len(child.Preds) == 1 && fieldFlag(p, iff.Cond, "driver.source", "Normalize", 0) {
 				guarded = true
 			}
 		}
@@ -443,7 +443,8 @@ func (c *Check) scaleProfilesPairing() {
 		return
 	}
 	n := 0
-	for _, b := range f.Blocks {
+	// the per-profile rescaling may be written in ScaleProfiles or in a helper it calls
+	for _, b := range helperBlocks(f, 2) {
 		for _, ins := range b.Instrs {
 			call, ok := ins.(*ssa.Call)
 			if !ok || call.Call.StaticCallee() == nil || call.Call.StaticCallee().Name() != "ScaleN" {
@@ -454,7 +455,7 @@ func (c *Check) scaleProfilesPairing() {
 			// every store into ratios: slot i holds Scale(1, unit of column i of this profile, common unit of column i)
 			bad := ""
 			stores := 0
-			for _, b2 := range f.Blocks {
+			for _, b2 := range b.Parent().Blocks {
 				for _, i2 := range b2.Instrs {
 					st, ok := i2.(*ssa.Store)
 					if !ok {
@@ -537,7 +538,22 @@ func (c *Check) scaleNKeepsWeight() {
 	}
 	// the non-zero test that feeds the keep decision
 	n := 0
-	for _, b := range f.Blocks {
+	// the column loop may be written in ScaleN (inside the sample loop) or in a per-sample
+	// helper that ScaleN calls from its sample loop
+	helperDepth := map[*ssa.Function]int{f: 0}
+	for _, es := range effectiveSites(f, func(ins ssa.Instruction) bool {
+		cmp, ok := ins.(*ssa.BinOp)
+		return ok && cmp.Op == token.NEQ
+	}, 2) {
+		if es.via != nil && nestingDepth(es.at.Block()) >= 1 {
+			helperDepth[es.via] = 1
+		}
+	}
+	for _, b := range helperBlocks(f, 2) {
+		outer, known := helperDepth[b.Parent()]
+		if !known {
+			continue
+		}
 		for _, ins := range b.Instrs {
 			cmp, ok := ins.(*ssa.BinOp)
 			if !ok || cmp.Op != token.NEQ {
@@ -549,7 +565,7 @@ func (c *Check) scaleNKeepsWeight() {
 			if bt, ok := cmp.X.Type().Underlying().(*types.Basic); !ok || bt.Kind() != types.Int64 {
 				continue
 			}
-			if nestingDepth(b) < 2 {
+			if nestingDepth(b)+outer < 2 {
 				continue
 			}
 			n++
@@ -583,7 +599,7 @@ func (c *Check) compatibilizeIndexMap() {
 				continue
 			}
 			ia, ok := st.Addr.(*ssa.IndexAddr)
-			if !ok || !rangeIndex(ia.Index) {
+			if !ok || !isForwardIndex(ia.Index) {
 				continue
 			}
 			_, srcIdx, ok := loadIndex(st.Val)
@@ -604,6 +620,61 @@ func (c *Check) compatibilizeIndexMap() {
 			c.ok("C07-R6", key, p.relFile(st.Pos()), "slot i is filled from old[map[i]]", "destination index and map index are the same range index")
 		}
 	}
+	// the same re-ordering written as `for _, idx := range map { new = append(new, old[idx]) }`:
+	// the k-th element appended to an initially empty slice is old[map[k]]
+	for _, b := range f.Blocks {
+		for _, ins := range b.Instrs {
+			call, ok := ins.(*ssa.Call)
+			if !ok {
+				continue
+			}
+			bi, ok := call.Call.Value.(*ssa.Builtin)
+			if !ok || bi.Name() != "append" || len(call.Call.Args) != 2 {
+				continue
+			}
+			elems := variadicValues(call.Call.Args[1])
+			if len(elems) != 1 {
+				continue
+			}
+			_, srcIdx, ok := loadIndex(elems[0])
+			if !ok {
+				continue
+			}
+			mArr, mIdx, ok := loadIndex(srcIdx)
+			if !ok || !isForwardIndex(mIdx) {
+				continue
+			}
+			n++
+			key := fmt.Sprintf("remap:%s", typeShort(elems[0].Type()))
+			acc, isPhi := call.Call.Args[0].(*ssa.Phi)
+			emptyStart := isPhi
+			if isPhi {
+				for _, e := range acc.Edges {
+					if e == ssa.Value(call) {
+						continue
+					}
+					switch x := e.(type) {
+					case *ssa.MakeSlice:
+						if k, ok := constInt(x.Len); !ok || k != 0 {
+							emptyStart = false
+						}
+					case *ssa.Const:
+						if !x.IsNil() {
+							emptyStart = false
+						}
+					default:
+						emptyStart = false
+					}
+				}
+			}
+			if !emptyStart || skippableInIteration(b) {
+				c.bad("C07-R6", key, p.relFile(call.Pos()), "compatibilizeSampleTypes builds the re-ordered list by appending, but not exactly one element per entry of the index map starting from an empty list: positions no longer correspond to the map")
+				continue
+			}
+			maps = append(maps, mArr)
+			c.ok("C07-R6", key, p.relFile(call.Pos()), "slot i is filled from old[map[i]]", "one element old[map[k]] is appended per entry k of the index map, starting from an empty list")
+		}
+	}
 	if n < 2 {
 		c.undecided("C07-R6", "remap:count", p.relFile(f.Pos()), fmt.Sprintf("expected the re-ordering of sample types and of values in compatibilizeSampleTypes, found %d index-mapped stores", n))
 		return
@@ -619,4 +690,33 @@ func (c *Check) compatibilizeIndexMap() {
 	} else {
 		c.bad("C07-R6", "remap:same", p.relFile(f.Pos()), "sample types and sample values are re-ordered with different index maps: columns no longer match their types")
 	}
+}
+
+// fieldFlag: v is the option field T.F, read directly or received through a parameter whose
+// argument is that field at every call of the function (which is never used as a value).
+func fieldFlag(p *Program, v ssa.Value, T, F string, depth int) bool {
+	if isFieldLoad(v, T, F) {
+		return true
+	}
+	par, ok := v.(*ssa.Parameter)
+	if !ok || depth > 2 {
+		return false
+	}
+	fn := par.Parent()
+	idx := -1
+	for i, q := range fn.Params {
+		if q == par {
+			idx = i
+		}
+	}
+	calls, asValue := directCallSites(p, fn)
+	if idx < 0 || asValue || len(calls) == 0 {
+		return false
+	}
+	for _, call := range calls {
+		if idx >= len(call.Common().Args) || !fieldFlag(p, call.Common().Args[idx], T, F, depth+1) {
+			return false
+		}
+	}
+	return true
 }
